@@ -189,7 +189,7 @@ window._content_generation_table = [
   dict(
     names = ("bartlett",),
     formula = "1 - 2.0 / size * abs(n - size / 2.0)",
-    math = r"1 - \frac{2}{size} \left| \frac{n - size}{2} \right|",
+    math = r"1 - \frac{2}{size} \left| n - \frac{size}{2} \right|",
     name = "Bartlett (triangular starting with zero)",
     bib = " ",
     seealso = """
@@ -202,8 +202,8 @@ window._content_generation_table = [
   dict(
     names = ("triangular", "triangle",),
     formula = "1 - 2.0 / (size + 2) * abs(n - size / 2.0)",
-    math = r"1 - \frac{2}{size + 2} \left| \frac{n - size}{2} \right|",
-    math_symm = r"1 - \frac{2}{size + 1} \left| \frac{n - size - 1}{2} "
+    math = r"1 - \frac{2}{size + 2} \left| n - \frac{size}{2} \right|",
+    math_symm = r"1 - \frac{2}{size + 1} \left| n - \frac{size - 1}{2} "
                                        r"\right|",
     name = "Triangular (with no zero end-point)",
     bib = " ",
